@@ -9,6 +9,7 @@
 #ifndef PYTYPE_TYPEGRAPH_TYPEGRAPH_H_
 #define PYTYPE_TYPEGRAPH_TYPEGRAPH_H_
 
+#include <algorithm>
 #include <cstddef>
 #include <functional>
 #include <memory>
@@ -219,12 +220,22 @@ typedef std::set<const CFGNode*, pointer_less<CFGNode>> CFGNodeSet;
 // SourceSet to create z.
 typedef std::set<Binding*, pointer_less<Binding>> SourceSet;
 
+// Orders SourceSets by the ids of the bindings they contain instead of by
+// pointer value (the default operator< on std::set<Binding*> would compare raw
+// pointers), so that iterating over an origin's source sets is deterministic.
+// (Defined below, once Binding is a complete type.)
+struct SourceSetLess {
+  bool operator()(const SourceSet& a, const SourceSet& b) const;
+};
+
+typedef std::set<SourceSet, SourceSetLess> SourceSetCollection;
+
 // An "origin" is an explanation of how a binding was constructed. It consists
 // of a CFG node and a set of sourcesets.
 struct Origin {
   CFGNode* where = nullptr;
 
-  std::set<SourceSet> source_sets;
+  SourceSetCollection source_sets;
 
   explicit Origin(CFGNode* where) { this->where = where; }
 
@@ -310,6 +321,12 @@ class Binding {
   std::size_t id_;
   friend Variable;    // to allow Variables to construct Bindings
 };
+
+inline bool SourceSetLess::operator()(const SourceSet& a,
+                                      const SourceSet& b) const {
+  return std::lexicographical_compare(a.begin(), a.end(), b.begin(), b.end(),
+                                      pointer_less<Binding>());
+}
 
 // Since a variable (or attribute, local, global, etc.) can have multiple
 // possible bindings during the course of a program, we store it as a union:
